@@ -23,7 +23,14 @@ for p in props:
         'evidence_file': f'/verif/evidence/{pid}.json',
         'replay_cmd_template': f'python3 tools/check.py {pid} --replay {{path}}',
         'engine': 'lean4-proof+correspondence',
-        'level_claimed': {'category': spec.get('level', 'proof'), 'text': spec.get('level_text', ''), 'design_ref': 'DESIGN.md §8 ' + pid},
+        'level_claimed': {'category': spec.get('level', 'proof'),
+                          'text': spec.get('level_text') or (
+                              '%d Lean theorems (axiom-audited each run, listed in tools/props/%s.py and explained in docs/%s.md) about the hand-written executable model of: %s. '
+                              'Tie to the code: translator-regenerated Gen modules + correspondence harness on seeded cases + Lean-evaluated checker clauses on the '
+                              'implementation\'s exact outputs. Not covered by proof: %s' % (
+                                  len(spec.get('theorems', [])), pid.lower(), pid, '; '.join(spec.get('modelled', ['see docs']))[:600],
+                                  '; '.join(spec.get('assumptions', ['see docs']))[:500])),
+                          'design_ref': 'DESIGN.md §0, §8 ' + pid + '; docs/' + pid + '.md'},
         'level_note': spec.get('level_note', 'Trusted: Lean 4.33.0 kernel; axioms propext, Classical.choice, Quot.sound only (audited each run); translator tools/extract.py; '
                                'correspondence harness (differential testing, ASan+UBSan build of /repo working tree); double arithmetic modelled as exact rationals.'),
         'technique': spec.get('technique', 'Lean 4 theorems about a hand-written executable model + correspondence check (model driver vs sanitized implementation on seeded cases)'),
